@@ -810,6 +810,9 @@ def annotated_loop(ex, node, spec, it=None):
             if isinstance(it.step, int) and it.step == 1:
                 n = ex.range_len(it)
                 elem = lambda k: mk_int(zint(it.start) + zint(k))   # noqa
+            elif all(isinstance(x, int) for x in (it.start, it.stop, it.step)):
+                n = len(range(it.start, it.stop, it.step))
+                elem = lambda k: mk_int(it.start + zint(k) * it.step)   # noqa
             else:
                 # stepped range: the trip count n is characterised (nonlinear) by
                 # start + (n-1)*step < stop <= start + n*step for a positive step
@@ -851,6 +854,8 @@ def annotated_loop(ex, node, spec, it=None):
     for lv, shp in spec.havoc.items():
         if isinstance(shp, str):
             v = eval_clause(ex, shp, fr.locals, mod, fr.env)
+        elif callable(shp) and not isinstance(shp, Shape):
+            v = shp(ex, fr)
         else:
             v = shp.sym(ex, 'loop!' + lv)
             if ex.ghost.get('live_env') is not None:
